@@ -92,6 +92,7 @@ prop(
     explanation="all clauses proved by VCs over set sums; set-sum axioms are Lean/Mathlib theorems",
     design_ref="5/C15",
     lean="lean/SetSum.lean",
+    bounded="bounded.c15_native",
 )
 
 NOT_APPLICABLE = {pid: NOT_BUILT for pid in ["C%02d" % i for i in range(1, 20)]}
